@@ -97,6 +97,16 @@ class Boundary:
         if e[0] == "call" and e[1].endswith("Option::unwrap_or") and len(e[2]) == 2 and e[2][0][0] == "call" and e[2][0][1].endswith("Iterator::position") \
                 and self._bytes_of_recv(e[2][0][2][0]) and self._ascii_only(e[2][0][2][1]):
             return self.ok(e[2][1], depth + 1)
+        # the position char_indices().find(..) reports, or the length when nothing is found (map_or / map_or_else with a closure that
+        # returns the offset component)
+        from engine import panics as _panics
+        if _panics.FACTS is None:
+            _panics.FACTS = self.F
+        try:
+            if _panics.char_boundary_offset(f, e, self.recv):
+                return True, "the offset of a character found by char_indices, or the length"
+        except Exception:
+            pass
         return False, "offset %s" % cfg.expr_str(e)[:100]
 
     def _strip(self, e):
